@@ -38,6 +38,8 @@ EMPTY   == 1     \* root of the empty list (transactions, receipts, withdrawals)
 EMPTYUN == 2     \* hash of the empty uncle list
 
 DevNames == {"StripWd",       \* F-C02-1 body without withdrawals accepted whatever the header's withdrawals root
+             "StripEmptyWd",  \* F-C02-7 what the first repair of F-C02-1 left: a body without a withdrawals list (pre-Shanghai container) accepted
+                              \*         for a header whose withdrawals root is the EMPTY-list root
              "TrustSource",   \* F-C02-2 header returned by the source never compared with the requested hash
              "NilWdPanic",    \* F-C02-3 (= F-C01-4) Shanghai-encoded body against a header without withdrawals root: nil dereference
              "NumKeyPrefix",  \* F-C02-4 block-number key longer than 9 bytes: only the first 8 bytes after the selector are read
@@ -50,7 +52,7 @@ DevNames == {"StripWd",       \* F-C02-1 body without withdrawals accepted whate
              "NoTxCheck",     \* (mutant) transactions root not compared
              "NoProof"}       \* (mutant) accumulator proof not verified
 DevsPinned == {"StripWd", "TrustSource", "NilWdPanic", "NumKeyPrefix", "NonCanon", "SlotIndexPanic"}    \* the code at the pinned commit, before the fix: commits
-DevsToday == {}                                                                                          \* the repaired tree (KNOWN_FINDINGS.json: all six fixed)
+DevsToday == {}                                                                                          \* the repaired tree (KNOWN_FINDINGS.json: all seven fixed)
 
 \* a body without a withdrawals list (legacy encoding) and a body with the EMPTY list (Shanghai encoding) are different byte strings with different
 \* root sets: the first belongs to a header without a withdrawals root, the second to a header whose root is the empty-list root (sweep mutant D/01-C02)
@@ -77,7 +79,7 @@ BodyOutcome(kv, cv, sv, D) ==
   ELSE IF ~cv.ok \/ (~cv.canon /\ "NonCanon" \notin D) THEN "reject"
   ELSE IF "NoUncleCheck" \notin D /\ cv.un # sv.un THEN "reject"
   ELSE IF "NoTxCheck" \notin D /\ cv.tx # sv.tx THEN "reject"
-  ELSE IF cv.wd = NONE THEN (IF "StripWd" \in D \/ sv.wd = NONE THEN "accept" ELSE "reject")
+  ELSE IF cv.wd = NONE THEN (IF "StripWd" \in D \/ sv.wd = NONE \/ ("StripEmptyWd" \in D /\ sv.wd = EMPTY) THEN "accept" ELSE "reject")
   ELSE IF sv.wd = NONE THEN (IF "NilWdPanic" \in D THEN "panic" ELSE "reject")
   ELSE IF cv.wd = sv.wd THEN "accept" ELSE "reject"
 
